@@ -322,6 +322,8 @@ def _tensor_sig(m, ti):
         import hashlib
 
         return ("const", tuple(t.shape), t.type, q, hashlib.sha256(t.data).hexdigest()[:16])
+    if getattr(t, "is_variable", False):
+        return ("var", t.name, tuple(t.shape), t.type, q, "variable")
     return ("var", t.name, tuple(t.shape), t.type, q)
 
 
@@ -334,7 +336,8 @@ def _op_sig(m, op, with_names=True):
             return ("var",) + s_[2:]
         return s_
 
-    return (op.code, op.custom, op.version, _opt_norm(op.options), op.custom_options, tuple(ts(i) for i in op.inputs), tuple(ts(i) for i in op.outputs))
+    return (op.code, op.custom, op.version, _opt_norm(op.options), op.custom_options, tuple(ts(i) for i in op.inputs), tuple(ts(i) for i in op.outputs),
+            tuple(ts(i) for i in (getattr(op, "intermediates", None) or [])))
 
 
 class C11(NetCheck):
@@ -389,7 +392,7 @@ class C11(NetCheck):
                 if same_code:
                     x = same_code[0]
                     sx = _op_sig(src, x, False)
-                    names = ("code", "custom", "version", "options", "custom_options", "inputs", "outputs")
+                    names = ("code", "custom", "version", "options", "custom_options", "inputs", "outputs", "intermediates")
                     detail = [n for n, p, q_ in zip(names, sx, s) if p != q_]
                 V("cpu_operator_not_verbatim", what=what, opname=o.name, changed=detail)
             else:
